@@ -34,9 +34,9 @@ THEOREMS = [P + n for n in [
     "rewrite_between_sound", "rewrite_between_keeps_grouping", "rewrite_between_not_only_witness", "simplify_not_sound", "conn_const_sound", "conn_const_exact", "bin_pair_sound",
     "simplify_neg_neg_sound", "simplify_equality_sound", "simplify_parens_sound", "flatten_sound",
     "simplify_conditionals_if_sound", "simplify_conditionals_sound", "simplify_conditionals_needs_first_branch",
-    "simplify_conditionals_keeps_grouping", "simplify_conditionals_flag_skips_after_pop",
+    "simplify_conditionals_keeps_grouping", "simplify_conditionals_flag_skips_after_pop", "wrap_needed_for_same_op_subtraction",
     "simplify_coalesce_head_sound", "simplify_coalesce_cmp_sound", "simplify_coalesce_needs_nonnull_constant",
-    "simplify_coalesce_guard_subject_needed",
+    "simplify_coalesce_guard_subject_needed", "simplify_coalesce_not_subject_grouped",
     "simplify_comparison_bounds_sound", "simplify_comparison_tie_needed",
     "simplify_comparison_nonnull_sound", "simplify_comparison_where_sound", "simplify_comparison_false_nonnull",
     "simplify_comparison_not_where_counterexample", "simplify_comparison_nonfalse_sound", "exact_pair_sound",
@@ -237,6 +237,21 @@ def _case_loop_pinned() -> dict:
     return out
 
 
+def _wrap_helper_pinned() -> bool:
+    """_parenthesize_for_parent wraps iff parent and argument are Binary / Unary / Predicate and the argument is not a Paren —
+    nothing else (what `wrapForParent` in the model mirrors)"""
+    src = open(os.path.join(REPO, "sqlglot", "optimizer", "simplify.py"), encoding="utf-8").read()
+    fn = next((n for n in ast.parse(src).body if isinstance(n, ast.FunctionDef) and n.name == "_parenthesize_for_parent"), None)
+    if fn is None:
+        return False
+    ifs = [n for n in fn.body if isinstance(n, ast.If)]
+    if len(ifs) != 1:
+        return False
+    text = re.sub(r"[\s()]+", "", ast.unparse(ifs[0].test))
+    return text == ("isinstanceparent,exp.Binary,exp.Unary,exp.Predicateandisinstanceexpression,exp.Binary,exp.Unary,exp.Predicate"
+                    "andnotisinstanceexpression,exp.Paren")
+
+
 def _between_wrap_pinned() -> bool:
     src = open(os.path.join(REPO, "sqlglot", "optimizer", "simplify.py"), encoding="utf-8").read()
     for cls in [n for n in ast.parse(src).body if isinstance(n, ast.ClassDef) and n.name == "Simplifier"]:
@@ -282,10 +297,13 @@ def translate(chk: Check) -> str:
         "unaries": all(issubclass(c, exp.Unary) for c in (exp.Not, exp.Neg, exp.Paren))
         and not any(issubclass(c, exp.Unary) for c in classes + [exp.Is, exp.And, exp.Or, exp.Add, exp.Sub, exp.Mul, exp.Between, exp.In,
                                                             exp.Coalesce, exp.Case, exp.If, exp.Column, exp.Literal, exp.Null, exp.Boolean]),
-        "wrap_helper": hasattr(S, "_parenthesize_for_parent"),
+        "wrap_helper": hasattr(S, "_parenthesize_for_parent") and _wrap_helper_pinned(),
         # rewrite_between's `wrap`: isinstance(parent, (Binary, Unary, Predicate)) and not isinstance(parent, (Connector, Paren))
         "between_wrap": _between_wrap_pinned(),
         **_case_loop_pinned(),
+        # simplify_coalesce wraps a NOT guard subject (b0a036f): `if isinstance(this, exp.Not): this = exp.paren(this.copy(), copy=False)`
+        "coalesce_not_subject_wrap": bool(re.search(r"if isinstance\(this, exp\.Not\):\s+this = exp\.paren\(this\.copy\(\), copy=False\)",
+                                                    open(os.path.join(REPO, "sqlglot", "optimizer", "simplify.py"), encoding="utf-8").read())),
         "comparisons": set(Sx.COMPARISONS) == set(classes + [exp.Is]),
         "lt_lte": tuple(Sx.LT_LTE) == (exp.LT, exp.LTE) and tuple(Sx.GT_GTE) == (exp.GT, exp.GTE),
         "constants": set(exp.CONSTANTS) == {exp.Literal, exp.Boolean, exp.Null} and set(exp.NONNULL_CONSTANTS) == {exp.Literal, exp.Boolean},
@@ -646,6 +664,27 @@ def case_cases(with_index=False):
                 q = f"CASE {whens}" + (" ELSE 99" if (idx % 2) else "") + " END"
                 idx += 1
                 yield (n, flavour, q) if with_index else q
+
+
+# a CASE / IF / COALESCE whose condition folds, compound branch, under every parent slot (the branch replaces the function and
+# must keep its grouping: _parenthesize_for_parent) — in particular the same operator on the right of a non-associative one
+BRANCH_INT = ["i0 - 1", "i0 - i1", "i0 + i1", "i0 * 2", "-i0", "i0"]
+BRANCH_BOOL = ["b0 OR b1", "b0 AND b1", "i0 < i1", "i0 = 1", "NOT b0", "i0 IN (1, 2)", "b0 IS NULL"]
+BRANCH_FUNCS = ["CASE WHEN TRUE THEN {B} END", "IF(FALSE, {Z}, {B})", "COALESCE({B})", "CASE WHEN 1 = 2 THEN {Z} WHEN 1 = 1 THEN {B} END"]
+BRANCH_CTX_INT = ["i1 - {F}", "{F} - i1", "7 - 2 - {F} > 0", "7 - {F} - 2 > 0", "{F} - 2 - 1 < 3", "2 * {F}", "{F} * 2", "{F} + 1", "1 + {F}", "-{F}",
+                  "{F} < 3", "3 = {F}", "{F} IN (1, 2)", "{F} IS NULL", "{F} BETWEEN 0 AND 3", "i1 - {F} - i1"]
+BRANCH_CTX_BOOL = ["{F} AND b2", "b2 AND {F}", "b2 OR {F}", "{F} OR b2 AND b1", "NOT {F}", "{F} = b2", "b2 <> {F}", "{F} IN (b2, TRUE)", "{F} IS NULL",
+                   "{F} IS TRUE", "NOT {F} IS NULL"]
+
+
+def branch_cases(with_index=False):
+    for kind, brs, ctxs, z in (("i", BRANCH_INT, BRANCH_CTX_INT, "0"), ("b", BRANCH_BOOL, BRANCH_CTX_BOOL, "b2")):
+        for bi, br in enumerate(brs):
+            for ci, ctx in enumerate(ctxs):
+                for fi, fn in enumerate(BRANCH_FUNCS):
+                    q = ctx.replace("{F}", fn.replace("{B}", br).replace("{Z}", z))
+                    always = kind == "i" and bi < 2 and ci < 5
+                    yield (always, fi, q) if with_index else q
 
 
 CONN_VARS = ["b0", "b1", "b2", "b3", "b4", "b5", "b6", "b7"]
@@ -1150,7 +1189,10 @@ class Observer:
     def _step_text(self, name, expression, before, out):
         """context for attributing a text-level (print + parse) difference to the rule that put a node under its parent"""
         exp, _, _ = sg()
-        if out is expression or not isinstance(out, exp.Expr) or expression.parent is None or before == out:
+        if out is expression or not isinstance(out, exp.Expr) or before == out:
+            return
+        if expression.parent is None:  # a root step: the result itself is the context
+            self.log.append(("step_text", {"rule": name, "pk": "none", "ck": pk_of(out)}, before, out.copy()))
             return
         try:
             self.log.append(("step_text", {"rule": name, "pk": pk_of(expression.parent), "ck": pk_of(out)}) + parent_context(expression, before, out))
@@ -2013,6 +2055,8 @@ CORPUS = [
     ("COALESCE(i0, i1, 1) = 2", "untyped", "simplify_co"), ("2 < COALESCE(i0, i1, i2, 1)", "typed", "simplify_co"),
     ("CASE WHEN FALSE THEN 10 WHEN b0 THEN 20 WHEN TRUE THEN 30 END", "untyped", "simplify"),
     ("CASE WHEN 1 = 2 THEN 10 WHEN i0 > 0 THEN 20 WHEN 1 = 1 THEN 30 ELSE 40 END", "untyped", "simplify"),
+    ("i1 - CASE WHEN TRUE THEN i0 - 1 END", "untyped", "simplify"), ("7 - 2 - IF(FALSE, 0, i0 - 1) > 0", "untyped", "simplify"),
+    ("COALESCE(NOT b1, TRUE) = TRUE", "untyped", "simplify_co"), ("COALESCE(NOT b0, b1, FALSE) <> TRUE", "typed", "simplify_co"),
     ("-NULL IS NULL", "untyped", "simplify"), ("i0 > 1 AND -NULL IS NULL", "untyped", "simplify"),
     ("i0 - 5 - 3 > 1", "untyped", "simplify"), ("5 - i0 < 2", "untyped", "simplify"), ("b0 AND TRUE", "untyped", "simplify"),
 ]
@@ -2054,7 +2098,7 @@ def run(chk: Check) -> None:
     dlist = list(dialects.values())
     rng = chk.rng
     t0 = time.time()
-    budget = chk.pick(32, 480)
+    budget = chk.pick(28, 480)
     if chk.broken:
         budget *= 2
     all_logs, e2e_norm, sqls = [], [], []
@@ -2115,9 +2159,15 @@ def run(chk: Check) -> None:
         q = conn_template(rng)
         for api in (("cnf", "dnf") if rng.random() < 0.7 else ("simplify",)):
             one(q, rng.choice(["untyped", "typed"]), api, dlist[0])
+    # branch-substitution sweep (simplify_conditionals / simplify_coalesce put an argument under the function's parent)
+    for always, fi, q in branch_cases(with_index=True):
+        if chk.quick and not always and rng.random() > 0.07:
+            continue
+        one(q, "untyped", "simplify_co" if fi == 2 else "simplify", dlist[0])
+    marks["branch"] = round(time.time() - t0, 1)
     # CASE sweep: every order of constant-false / NULL / undecided / constant-true WHENs (3 branches: all; 4: sampled in quick)
     for n_, flavour, q in case_cases(with_index=True):
-        if chk.quick and n_ == 4 and rng.random() > 0.25:
+        if chk.quick and n_ == 4 and rng.random() > 0.15:
             continue
         one(q, "untyped", "simplify", dlist[0])
         if flavour == 0 and n_ == 3:
@@ -2147,7 +2197,7 @@ def run(chk: Check) -> None:
     chk.cov["sweep_marks"] = marks
     chk.cov["sweep_s"] = round(time.time() - t0, 1)
     t_rand = time.time()
-    while time.time() - t_rand < budget * 0.28 and len(chk.violations) < 6:
+    while time.time() - t_rand < budget * 0.25 and len(chk.violations) < 6:
         variant = rng.choice(["untyped", "typed", "nonnull"])
         sql = gen_sql(rng, nonnull=variant == "nonnull")
         sqls.append(sql)
